@@ -23,7 +23,7 @@ SETTINGS = {"incompatible_override": True}
 PRELUDE = (
     "from typing import Any, Callable, Protocol\n"
     "def _rec(x: object) -> Any: return x\n"
-    "class A: pass\nclass B(A): pass\nclass C(B): pass\n_c = C()\n"
+    "class A: pass\nclass B(A): pass\nclass C(B): pass\nclass U: pass\n_c = C()\n_u = U()\n"
 )
 BODY = "return _rec(locals())"
 
@@ -125,7 +125,7 @@ def _names(case: dict) -> list[str]:
 
 
 def _chain(case: dict, ns: dict) -> list:
-    cls = {0: ns["C"], 1: ns["B"], 2: ns["A"], 3: object}
+    cls = {0: ns["C"], 1: ns["B"], 2: ns["A"], 3: object, 5: ns["U"]}
     ranks = {p["ty"] for b in case["bases"] for p in b["sig"]} | {p["ty"] for p in case["child"]["sig"]}
     ranks |= {b["ret"] for b in case["bases"]} | {case["child"]["ret"]}
     ranks = sorted(r for r in ranks if r != ANY)
